@@ -90,10 +90,14 @@ Definition all_done_zip (tr : trans) : bool :=
    An environment is given by its step / reset functions, its observation-space description and the
    list of agents alive in a state (PettingZoo's env.agents). Everything the vector environment and
    the wrapper do is defined over this interface; the scripted family below is one instance. *)
+(* arguments of env.reset: (seed, options["opt"]); None = not given. The auto-reset calls env.reset() *)
+Definition rarg := (option Z * option Z)%type.
+Definition no_rarg : rarg := (None, None).
+
 Section Env.
 Context {env state : Type}.
 Variable e_step : env -> state -> list Z -> state * trans.          (* env.step; actions positional *)
-Variable e_reset : env -> state -> option Z -> state * (dict obs_t * dict info_t).   (* env.reset(seed) *)
+Variable e_reset : env -> state -> rarg -> state * (dict obs_t * dict info_t).   (* env.reset(seed, options) *)
 Variable e_kind : env -> okind.
 Variable e_live : state -> list nat.                               (* env.agents *)
 
@@ -103,7 +107,7 @@ Definition g_no_agent_left (s : state) : bool := match e_live s with [] => true 
 Definition g_single_step (E : env) (s : state) (acts : list Z) : state * trans :=
   let '(s1, tr) := e_step E s acts in
   if g_no_agent_left s1 then
-    let '(s2, (o, i)) := e_reset E s1 None in
+    let '(s2, (o, i)) := e_reset E s1 no_rarg in
     (s2, {| tobs := o; trew := trew tr; tterm := tterm tr; ttrunc := ttrunc tr; tinfo := i |})
   else (s1, tr).
 
@@ -121,7 +125,7 @@ Definition g_worker_step_with (test : trans -> bool) (E : env) (agents : list na
   : state * trans :=
   let '(s1, tr) := e_step E s acts in
   let '(s2, o, i) := if test tr
-                     then let '(s2, (o, i)) := e_reset E s1 None in (s2, o, i)
+                     then let '(s2, (o, i)) := e_reset E s1 no_rarg in (s2, o, i)
                      else (s1, tobs tr, tinfo tr) in
   (s2, process_transition (e_kind E) agents
          {| tobs := o; trew := trew tr; tterm := tterm tr; ttrunc := ttrunc tr; tinfo := i |}).
@@ -129,9 +133,9 @@ Definition g_worker_step := g_worker_step_with all_done_keys.
 Definition g_worker_step_zip := g_worker_step_with all_done_zip.
 
 (* command == "reset" *)
-Definition g_worker_reset (E : env) (agents : list nat) (s : state) (seed : option Z)
+Definition g_worker_reset (E : env) (agents : list nat) (s : state) (ra : rarg)
   : state * (dict obs_t * dict info_t) :=
-  let '(s', (o, i)) := e_reset E s seed in
+  let '(s', (o, i)) := e_reset E s ra in
   (s', (fill agents (placeholder_obs (e_kind E)) o, fill agents [] i)).
 
 (* the worker of the tree before commit 8e2ceb2: transition captured BEFORE the reset, and
@@ -140,7 +144,7 @@ Definition g_worker_reset (E : env) (agents : list nat) (s : state) (seed : opti
 Definition g_worker_step_pinned (E : env) (agents : list nat) (s : state) (acts : list Z)
   : state * option trans :=
   let '(s1, tr) := e_step E s acts in
-  let s2 := if all_done_zip tr then fst (e_reset E s1 None) else s1 in
+  let s2 := if all_done_zip tr then fst (e_reset E s1 no_rarg) else s1 in
   (s2, if forallb (fun a => match lookup a (trew tr) with Some _ => true | None => false end) agents
        then Some tr else None).
 
@@ -149,7 +153,7 @@ Definition g_worker_step_pinned (E : env) (agents : list nat) (s : state) (acts 
 Definition g_wrapper_step (E : env) (s : state) (acts : list Z) : state * trans :=
   let '(s1, tr) := e_step E s acts in
   if all_done_keys tr then
-    let '(s2, (o, i)) := e_reset E s1 None in
+    let '(s2, (o, i)) := e_reset E s1 no_rarg in
     (s2, {| tobs := o; trew := trew tr; tterm := tterm tr; ttrunc := ttrunc tr; tinfo := i |})
   else (s1, tr).
 (* before commit 8e2ceb2: np.all(list(terminations.values()) or list(truncations.values())) —
@@ -158,7 +162,7 @@ Definition g_wrapper_step_pinned (E : env) (s : state) (acts : list Z) : state *
   let '(s1, tr) := e_step E s acts in
   let l := match vals (tterm tr) with [] => vals (ttrunc tr) | l => l end in
   if forallb (fun b => b) l then
-    let '(s2, (o, i)) := e_reset E s1 None in
+    let '(s2, (o, i)) := e_reset E s1 no_rarg in
     (s2, {| tobs := o; trew := trew tr; tterm := tterm tr; ttrunc := ttrunc tr; tinfo := i |})
   else (s1, tr).
 End Env.
@@ -242,10 +246,22 @@ Record vout := { vobs : dict (list varr); vrew : dict (list Z); vterm : dict (li
 (* ================================================================== generic in the worker ===========
    The parent side (reset_wait / step_wait / PettingZooVecEnv.step) only sees what the workers send
    and write; it is defined over arbitrary worker functions. *)
+(* reset_async(seed, options): seed None -> [None]*n; an int -> [seed + i]; a list is taken as it is
+   (the code asserts len(seed) == num_envs); the same options object goes to every worker *)
+Inductive seedspec := SNone | SInt (z : Z) | SList (l : list Z).
+Definition expand_seed (n : nat) (sd : seedspec) : list (option Z) :=
+  match sd with
+  | SNone => repeat None n
+  | SInt z => map (fun i => Some (z + Z.of_nat i)%Z) (seq 0 n)
+  | SList l => map Some l
+  end.
+Definition reset_args (n : nat) (sd : seedspec) (opt : option Z) : list rarg :=
+  map (fun s => (s, opt)) (expand_seed n sd).
+
 Section Parent.
 Context {env state : Type}.
 Variable wstep : env -> list nat -> state -> list Z -> state * trans.
-Variable wreset : env -> list nat -> state -> option Z -> state * (dict obs_t * dict info_t).
+Variable wreset : env -> list nat -> state -> rarg -> state * (dict obs_t * dict info_t).
 Variable ekind : env -> okind.
 Variable s_init : state.
 
@@ -273,21 +289,22 @@ Definition g_vec_step (k : okind) (agents : list nat) (Es : list env) (st : gvst
       vtrunc := gather agents ttrunc false outs;
       vinfos := gather_info n (map tinfo outs) |}).
 
+(* reset_async: the workers get ("reset", {"seed": seed_i, "options": options}) *)
 Fixpoint g_workers_reset (agents : list nat) (i : nat) (Es : list env) (ss : list state)
-         (seed : option Z) (m : shm) : list state * list (dict info_t) * shm :=
-  match Es, ss with
-  | E :: Es', s :: ss' =>
-      let '(s', (o, inf)) := wreset E agents s (option_map (fun z => (z + Z.of_nat i)%Z) seed) in
+         (ras : list rarg) (m : shm) : list state * list (dict info_t) * shm :=
+  match Es, ss, ras with
+  | E :: Es', s :: ss', ra :: ras' =>
+      let '(s', (o, inf)) := wreset E agents s ra in
       let m' := write_shm i (ekind E) o m in
-      let '(rs, ri, mf) := g_workers_reset agents (S i) Es' ss' seed m' in
+      let '(rs, ri, mf) := g_workers_reset agents (S i) Es' ss' ras' m' in
       (s' :: rs, inf :: ri, mf)
-  | _, _ => ([], [], m)
+  | _, _, _ => ([], [], m)
   end.
 
-Definition g_vec_reset (k : okind) (agents : list nat) (Es : list env) (st : gvstate state) (seed : option Z)
-  : gvstate state * (dict (list varr) * vinfo) :=
+Definition g_vec_reset (k : okind) (agents : list nat) (Es : list env) (st : gvstate state)
+           (sd : seedspec) (opt : option Z) : gvstate state * (dict (list varr) * vinfo) :=
   let n := length Es in
-  let '(ss', infos, m') := g_workers_reset agents 0 Es (vstates st) seed (vmem st) in
+  let '(ss', infos, m') := g_workers_reset agents 0 Es (vstates st) (reset_args n sd opt) (vmem st) in
   ({| vstates := ss'; vmem := m' |}, (read_obs n k m', gather_info n infos)).
 
 Definition g_vec_init (k : okind) (agents : list nat) (Es : list env) : gvstate state :=
@@ -315,12 +332,16 @@ Definition observe (E : senv) (s : sstate) (a : nat) (echo : Z) : obs_t :=
 Definition info_of (s : sstate) (a : nat) (first : bool) : info_t :=
   (0, (1000 * Z.of_nat (ord s) + 16 * Z.of_nat (tm s) + Z.of_nat a)%Z) :: (if first then [(1, 1%Z)] else []).
 
-(* env.reset(seed) *)
-Definition env_reset (E : senv) (s : sstate) (seed : option Z) : sstate * (dict obs_t * dict info_t) :=
-  let s' := {| base := match seed with Some z => z | None => base s end;
+(* the info returned by reset echoes options["opt"] (key 2) when options were given *)
+Definition reset_info (s : sstate) (a : nat) (opt : option Z) : info_t :=
+  info_of s a true ++ match opt with Some z => [(2, z)] | None => [] end.
+
+(* env.reset(seed, options) *)
+Definition env_reset (E : senv) (s : sstate) (ra : rarg) : sstate * (dict obs_t * dict info_t) :=
+  let s' := {| base := match fst ra with Some z => z | None => base s end;
                ord := S (ord s); tm := 0; live := seq 0 (nag E) |} in
   (s', (map (fun a => (a, observe E s' a 0%Z)) (live s'),
-        map (fun a => (a, info_of s' a true)) (live s'))).
+        map (fun a => (a, reset_info s' a (snd ra))) (live s'))).
 
 Definition cur_len (E : senv) (s : sstate) : nat := nth (ord s mod length (lens E)) (lens E) 1.
 Definition leaves (E : senv) (a t : nat) : bool :=
